@@ -107,5 +107,5 @@ pub fn corrupt(base: &[u8], k: usize) -> Option<(String, Vec<u8>)> {
 
 /// Content-Length edge values (value text, body bytes supplied).
 pub fn content_length_edges() -> Vec<(&'static str, usize)> {
-    vec![("", 0), ("0", 0), ("007", 7), ("4294967295", 0), ("4294967296", 0), ("-1", 0), ("1x", 1), (" 5 ", 5), ("00", 0), ("3", 3), ("51200", 51200), ("51201", 0)]
+    vec![("", 0), ("0", 0), ("-0", 0), ("-00", 0), ("007", 7), ("4294967295", 0), ("4294967296", 0), ("-1", 0), ("1x", 1), (" 5 ", 5), ("00", 0), ("3", 3), ("51200", 51200), ("51201", 0)]
 }
